@@ -56,7 +56,7 @@ def runLine (vars script : String) : String :=
               let difs := st.residualDifs.map fun d => Term.str "dif" [d.1, d.2]
               let susps := st.susps.map fun sp =>
                 Term.str "w" [condTerm (sp.cond.apply st.σ), .int sp.id]
-              let log := st.log.map fun n => Term.int n
+              let log := st.log.map fun (n : Nat) => Term.int (Int.ofNat n)
               "ok " ++ showTerm (.str "r" [applyS st.σ vs, Term.ofList difs, Term.ofList susps,
                 Term.ofList log])
   | _, _ => "parse-error"
